@@ -152,7 +152,7 @@ impl Prop for C10 {
         let rb = b.eval(doc);
         match rb {
           Ev::Panic(p) => return Outcome::violated("panic-escaped", format!("document\n{}\n{}", shown(doc), p)),
-          Ev::ParseErr(m) => return Outcome::violated("document-rejected:parse", format!("the code alone evaluates but the document does not parse ({}):\n{}", m, shown(doc))),
+          Ev::ParseErr(m) => return Outcome::violated(if dash_after_list(doc) { "document-rejected:parse:dash-line-after-list" } else { "document-rejected:parse" }, format!("the code alone evaluates but the document does not parse ({}):\n{}", m, shown(doc))),
           Ev::Err(k, m) => return Outcome::violated("document-rejected:eval", format!("the code alone evaluates but the document fails with {} {}:\n{}", k, m.chars().take(100).collect::<String>(), shown(doc))),
           Ev::Ok(_) => {}
         }
@@ -196,4 +196,14 @@ impl Prop for C10 {
       _ => Outcome::inconclusive("bad-mode", String::new()),
     }
   }
+}
+
+/// value-free refinement of a parse rejection: the document has a bullet list that is followed, after a blank line, by a line
+/// that starts with `-` (a check list, a comment, or code such as `-x`)
+fn dash_after_list(doc: &str) -> bool {
+  let lines: Vec<&str> = doc.lines().collect();
+  for i in 0..lines.len() {
+    if lines[i].trim_start().starts_with("- ") && i + 2 < lines.len() && lines[i + 1].trim().is_empty() && lines[i + 2].starts_with('-') && !lines[i + 2].starts_with("- ") { return true; }
+  }
+  false
 }
